@@ -66,6 +66,7 @@ type Net struct {
 	mu        sync.RWMutex
 	udp       map[string]*UDPSock
 	OpaqueStreams bool // stream contents are not part of the canonical log (see TCPConn.Write)
+	EOFWithData bool // stream reads return their last bytes together with io.EOF (Extra "eof_with_data")
 	tcpl      map[string][]*TCPListener // several listeners on one address only with SO_REUSEPORT on all of them
 	tcplRR    map[string]int
 	names     map[string]string // "ip:port" -> actor name; "ip" -> actor name
@@ -84,7 +85,7 @@ type Net struct {
 func NewNet(k *Kernel) *Net {
 	return &Net{K: k, udp: map[string]*UDPSock{}, tcpl: map[string][]*TCPListener{}, tcplRR: map[string]int{}, names: map[string]string{},
 		flowCount: map[string]int{}, ioCount: map[string]int{}, ephemeral: map[string]int{}, ServerIPs: map[string]bool{},
-		LatCS: k.Plan.Cfg.LatCSns, LatSP: k.Plan.Cfg.LatSPns}
+		LatCS: k.Plan.Cfg.LatCSns, LatSP: k.Plan.Cfg.LatSPns, EOFWithData: k.Plan.Cfg.Extra["eof_with_data"] == 1}
 }
 
 func akey(ip net.IP, port int) string { return net.JoinHostPort(ip.String(), strconv.Itoa(port)) }
@@ -821,10 +822,19 @@ func (c *TCPConn) read(p []byte) (int, error) {
 			c.in.buf = c.in.buf[n:]
 			c.BytesIn += n
 			c.consumed += n
+			// io.Reader: "a Reader returning a non-zero number of bytes at the end of the input
+			// stream may return either err == EOF or err == nil". A *net.TCPConn does the latter,
+			// a tls.Conn (TLS 1.2, close_notify already buffered) the former: with EOFWithData the
+			// last bytes of a stream come with their EOF
+			last := c.N.EOFWithData && len(c.in.buf) == 0 && c.in.finArrived && !c.in.rst
 			c.mu.Unlock()
 			c.peer.wakeWriter()
 			if c.N.Obs != nil {
 				c.N.Obs.TCPRead(c, p[:n])
+			}
+			if last {
+				c.N.K.Stats.Fault("stream:eof-with-data")
+				return n, io.EOF
 			}
 			return n, nil
 		}
@@ -1101,6 +1111,14 @@ func (c *TCPConn) arrivalSlot(d int64) int64 {
 }
 
 func (c *TCPConn) arrive(b []byte) {
+	// EOFWithData: a FIN sent at the instant of the last write travels on the last segment
+	// (the delayed FIN event that follows changes nothing then)
+	piggyback, total := false, 0
+	if c.N.EOFWithData {
+		c.peer.mu.Lock()
+		piggyback, total = c.peer.wfin && !c.peer.in.rst, c.peer.wrote
+		c.peer.mu.Unlock()
+	}
 	c.mu.Lock()
 	if c.closed || c.in.rst {
 		c.mu.Unlock()
@@ -1124,6 +1142,9 @@ func (c *TCPConn) arrive(b []byte) {
 	}
 	c.in.buf = append(c.in.buf, b...)
 	c.Arrived += len(b)
+	if piggyback && c.Arrived == total {
+		c.in.finArrived = true
+	}
 	c.mu.Unlock()
 	c.wakeup()
 }
